@@ -140,6 +140,9 @@ def nullable(n):
     if op == "cap": return nullable(n["kid"])
     raise ValueError(op)
 
+BRACKETS = [False]   # render optional / repeated groups with [ ] and { } (set per grammar)
+
+
 def needs_paren(n):
     return n["op"] in ("seq", "alt")
 
@@ -163,7 +166,17 @@ def render(n, out):
     elif op == "grp":
         mod = {"once": "", "opt": "?", "star": "*", "plus": "+", "nonempty": "!"}[n["mode"]]
         k = n["kid"]
-        if n["mode"] == "once" or needs_paren(k) or k["op"] in ("grp", "neg", "look", "cap"):
+        if BRACKETS[0] and n["mode"] in ("opt", "star"):
+            # the bracket spellings of the tag language: [ x ] = ( x )?   { x } = ( x )*
+            out.append("[" if n["mode"] == "opt" else "{")
+            render(k, out)
+            out.append("]" if n["mode"] == "opt" else "}")
+            return
+        if BRACKETS[0] and n["mode"] != "once" and k["op"] == "grp" and k["mode"] in ("opt", "star"):
+            # a suffix modifier directly after a bracket group: { x }!  [ x ]+
+            render(k, out)
+            out[-1] = out[-1] + mod
+        elif n["mode"] == "once" or needs_paren(k) or k["op"] in ("grp", "neg", "look", "cap"):
             out.append("("); render(k, out); out.append(")" + mod)
         else:
             render(k, out)
@@ -301,6 +314,7 @@ def make_grammar(rng, gid, extra_kinds=(), with_pos=False, neglook=True, name_el
         g.neglook = neglook
         g.name_elided = name_elided
         g.use_user = use_user
+        brackets = rng.random() < 0.35
         prods = []
         ok = True
         for pi in range(nprods):
@@ -320,9 +334,12 @@ def make_grammar(rng, gid, extra_kinds=(), with_pos=False, neglook=True, name_el
                                 b2 = body if body["op"] not in ("alt",) else {"op": "grp", "mode": "once", "kid": body}
                                 body = {"op": "seq", "kids": [first, b2]}
                 try:
+                    BRACKETS[0] = brackets
                     fl = fields_from(body, g.fields)
                 except ValueError:
                     continue
+                finally:
+                    BRACKETS[0] = False
                 if fl:
                     break
             else:
